@@ -134,3 +134,14 @@ Theorem C01_saturated_pixels_order :
     ext_ltb x y = (emb M x <? emb M y) /\ ext_eqb x y = (emb M x =? emb M y).
 Proof. intros B M H x y Hx Hy. split; [exact (emb_ltb B M H x y Hx Hy) | exact (emb_eqb B M H x y Hx Hy)]. Qed.
 Print Assumptions C01_saturated_pixels_order.
+
+(* K10: an INTEGER threshold is converted to a double before float64 data are compared with it
+   (Rounding.v): a pixel strictly above the threshold can be left out - refuted with the witness
+   2^53+4 against the threshold 2^53+3; a threshold that is a double is compared exactly *)
+From Dendro Require Import Rounding.
+Theorem C01_integer_threshold_refuted :
+  exists d t, to_double d = d /\ t < d /\ numpy_double_gt_int d t = false.
+Proof. exact integer_threshold_refuted. Qed.
+Theorem C01_double_threshold_exact : forall d t, to_double t = t -> numpy_double_gt_int d t = (t <? d).
+Proof. exact double_threshold_exact. Qed.
+Print Assumptions C01_integer_threshold_refuted.
